@@ -96,7 +96,9 @@ func (key watermarkTriggerKey) Less(than btree.Item) bool {
 		panic(fmt.Sprintf("invalid key comparison: %T", than))
 	}
 
-	if key.Time == thanTyped.Time {
+	// Compare instants, not time.Time structs: == also compares the *Location pointer, which made two keys with the
+	// same instant but different locations neither less nor greater than each other, so the btree dropped one of them.
+	if key.Time.Equal(thanTyped.Time) {
 		return key.GroupKey.Less(thanTyped.GroupKey)
 	} else {
 		return key.Time.Before(thanTyped.Time)
